@@ -4,9 +4,16 @@ package props
 
 import (
 	"bytes"
+	"context"
+	"crypto/rand"
 	"encoding/json"
 	"fmt"
 	"math/big"
+	"sync"
+	"time"
+
+	"github.com/bnb-chain/tss-lib/v2/common"
+	"github.com/bnb-chain/tss-lib/v2/crypto/paillier"
 
 	eckeygen "github.com/bnb-chain/tss-lib/v2/ecdsa/keygen"
 	edkeygen "github.com/bnb-chain/tss-lib/v2/eddsa/keygen"
@@ -27,6 +34,8 @@ type protoRun struct {
 	NewT    int   `json:",omitempty"`
 	Proofs  bool  `json:",omitempty"` // ECDSA resharing: mod/fac proofs on (production path)
 	BadXi   []int `json:",omitempty"` // positions in Members whose party runs with a wrong secret share (Xi+1)
+	WeakPre []int `json:",omitempty"` // ECDSA keygen / resharing: sorted party indices (new-committee indices) that bring under-sized parameters
+	WeakBits int  `json:",omitempty"`
 }
 
 func (p protoRun) edd() bool { return p.Proto[:5] == "eddsa" }
@@ -126,7 +135,10 @@ func (p protoRun) build() *runCtx {
 	case "ecdsa-keygen", "eddsa-keygen":
 		cfg := sim.KeygenCfg{EdDSA: p.edd(), Keys: bigs(p.Keys), T: p.Key.T}
 		if !p.edd() {
-			x.pre = preParams()[:len(p.Keys)]
+			x.pre = append([]eckeygen.LocalPreParams{}, preParams()[:len(p.Keys)]...)
+			for _, w := range p.WeakPre {
+				x.pre[w] = weakPreParams(p.WeakBits)
+			}
 			cfg.Pre = x.pre
 		}
 		x.net, x.ids = sim.NewKeygen(cfg)
@@ -190,7 +202,10 @@ func (p protoRun) build() *runCtx {
 		for _, i := range p.Members {
 			keys = append(keys, deepCopyEC(data[i]))
 		}
-		x.pre = preParams()[:len(p.NewKeys)]
+		x.pre = append([]eckeygen.LocalPreParams{}, preParams()[:len(p.NewKeys)]...)
+		for _, w := range p.WeakPre {
+			x.pre[w] = weakPreParams(p.WeakBits)
+		}
 		for _, b := range p.BadXi {
 			keys[b].Xi = add(keys[b].Xi, 1)
 		}
@@ -461,4 +476,48 @@ func (x *runCtx) judgeNewCommitteeHonest(only map[int]bool, dev int) *runProblem
 		}
 	}
 	return nil
+}
+
+
+// weakPreParams builds a structurally correct but under-sized pre-parameter set (Paillier modulus and
+// ring-Pedersen modulus of `bits` bits), the way prepare.go builds the full-size one.
+var (
+	weakMu  sync.Mutex
+	weakSet = map[int]eckeygen.LocalPreParams{}
+)
+
+func weakPreParams(bits int) eckeygen.LocalPreParams {
+	weakMu.Lock()
+	defer weakMu.Unlock()
+	if v, ok := weakSet[bits]; ok {
+		return v
+	}
+	ctx, cancel := context.WithTimeout(context.Background(), 10*time.Minute)
+	defer cancel()
+	sk, _, err := paillier.GenerateKeyPair(ctx, rand.Reader, bits, 4)
+	if err != nil {
+		panic("harness: " + err.Error())
+	}
+	sgps, err := common.GetRandomSafePrimesConcurrent(ctx, bits/2, 2, 4, rand.Reader)
+	if err != nil {
+		panic("harness: " + err.Error())
+	}
+	P, Q := sgps[0].SafePrime(), sgps[1].SafePrime()
+	p, q := sgps[0].Prime(), sgps[1].Prime()
+	NT := mul(P, Q)
+	pq := mul(p, q)
+	f1 := common.GetRandomPositiveRelativelyPrimeInt(rand.Reader, NT)
+	var alpha, beta *big.Int
+	for {
+		alpha = common.GetRandomPositiveRelativelyPrimeInt(rand.Reader, NT)
+		beta = new(big.Int).ModInverse(alpha, pq)
+		if beta != nil {
+			break
+		}
+	}
+	h1 := mulMod(f1, f1, NT)
+	h2 := expMod(h1, alpha, NT)
+	v := eckeygen.LocalPreParams{PaillierSK: sk, NTildei: NT, H1i: h1, H2i: h2, Alpha: alpha, Beta: beta, P: p, Q: q}
+	weakSet[bits] = v
+	return v
 }
